@@ -58,6 +58,7 @@ class FakeThread:
                 eng, uri = ENG, tf.uri
                 enabled = lambda: eng.uri_dead(uri)
                 self.name = "reclaim:" + Path(tf.path).name
+                self.tokenfile = str(tf.path)
         ENG.add_event("thread", self.name, lambda: self.target(*self.args, **self.kwargs), enabled=enabled, thread=self)
 
 
@@ -73,6 +74,16 @@ class _ThreadingShim:
 
 class _FakeIPCom:
     def fswatch(self, watcher, path, recursive=False):
+        # The reclaim threads started while the token directory was first read run
+        # concurrently with the rest of the constructor: when the case says so they complete
+        # *before* the watcher is registered (their removals are then never notified)
+        if ENG is not None and ENG.early_reclaim:
+            mine = [e for e in ENG.pending if e.kind == "thread" and e.label.startswith("reclaim:") and e.enabled()]
+            # (only the files of the directory whose watcher is being registered)
+            for ev in [e for e in mine if getattr(e.meta.get("thread"), "tokenfile", "").startswith(str(path) + os.sep)]:
+                ENG.pending.remove(ev)
+                ev.fn()
+                ENG.notes.add("stale-token-file-removed-before-watch")
         return ("watch", str(path))
 
     def fsunwatch(self, w):
@@ -273,6 +284,7 @@ class Engine:
         self.job_by_obj = {}
         self.resubmitted = False
         self.stale_fs = []
+        self.early_reclaim = False
         self.release_racers = []  # (f, ti): foreign holdings released at our next refused acquisition
         self.racers = []  # (f, ti, w): foreign acquisitions waiting for a window inside ours
         self.output_extra = {}  # upstream index -> upstream indices attached to its output by a pre-task
@@ -554,7 +566,16 @@ def _run_one(case, scratch, run_index, done_before, prev=None, xp_name=None, end
     try:
         for ti, tok in enumerate(case["tokens"]):
             if tok["kind"] == "file":
+                if tok.get("stale") and run_index == 0:
+                    # token file left by a job of a scheduler that died; the job has ended since
+                    d = eng.tokdir(ti)
+                    d.mkdir(parents=True, exist_ok=True)
+                    (scratch / f"gone-job{ti}").mkdir(exist_ok=True)  # the job directory exists, its process is gone
+                    (d / "stale.token").write_text(f"{tok['stale'][0]}\n{scratch / f'gone-job{ti}' / 'job'}\n")
+                    eng.early_reclaim = bool(tok["stale"][1])
+                    eng.notes.add("stale-token-file-at-start")
                 t = CounterToken(f"t{ti}", eng.tokdir(ti), tok["total"])
+                eng.early_reclaim = False
                 t.ipc_lock = LockProxy(t.ipc_lock)
             else:
                 t = ProcessCounterToken(tok["total"])
